@@ -12,6 +12,30 @@ PANICKY = {
 }
 
 
+def _plain(t, depth=0):
+    """named scalar constants read as their value (so that `part > LAST_PART_MAX` and `part > 0x0F` compare equal)"""
+    if depth > 40 or not isinstance(t, tuple):
+        return t
+    if t[0] == "const" and t[2] is not None and t[3]:
+        return ("const", t[1], t[2], None, None)
+    out = []
+    for c in t:
+        if isinstance(c, tuple):
+            out.append(_plain(c, depth + 1))
+        elif isinstance(c, list):
+            out.append([_plain(e, depth + 1) if isinstance(e, tuple) else e for e in c])
+        else:
+            out.append(c)
+    return tuple(out)
+
+
+_show = show
+
+
+def show(t, depth=0):
+    return _show(_plain(t), depth)
+
+
 def short_fn(b):
     n = b.name
     for pre in ("mqtt_client::session::", "packets::_::_serde::", "mqtt_client::"):
@@ -177,6 +201,8 @@ def facts(body, bb):
                 cc = c if lab else negate(c)
                 if cc[0] in ("<", "<="):
                     out.append(("lt" if cc[0] == "<" else "le", cc[1], cc[2], cc[2].startswith("len(") or "::len(" in cc[2]))
+                elif cc[0] == "!=":
+                    out.append(("ne", cc[1], cc[2], False))
             if lab in ("Some", "Ok", "Continue"):
                 subj = si["subject"]
                 if lab == "Continue":
